@@ -198,6 +198,25 @@ def C10(tier, seed):
     return p
 
 
+def C18(tier, seed):
+    n = "300" if tier == "quick" else "6000"
+    gen = [{"name": "life_paths", "module": "LifecycleModel", "cfg": "LifecycleModel.cfg", "extra": ["-simulate", f"num={n}", "-depth", "12", "-seed", str(seed)]}]
+    jobs = []
+    shards, sample = (4, 60) if tier == "quick" else (16, 1500)
+    for s_ in range(shards):
+        jobs.append({"name": f"life_{s_}", "args": ["life", "--seed", str(seed * 100 + s_), "--paths", "@life_paths@", "--sample", str(sample)]})
+    jobs += hist_jobs("hist_spl_", seed, 2 if tier == "quick" else 8, 4 if tier == "quick" else 40, 150, "spl", ["--rewards", "1"])
+    jobs += matrix_jobs("matrix_", tier, seed, "0", "0", 0, 0, shards_q=1, shards_t=1)
+    return {"active": ["C18"], "drivers": jobs, "gen": gen,
+            "models": [{"name": "LifecycleModel", "module": "LifecycleModel", "cfg": "LifecycleModel_mc.cfg", "timeout": 1200}],
+            "must_exercise": {"lock_position": 5, "transfer_locked_position": 3, "reset_position_range": 5, "close_position": 5, "open_bundled_position": 3, "close_bundled_position": 3,
+                              "reposition_liquidity_v2": 5, "open_position_with_token_extensions": 5},
+            "explanation": "TLC model-checks the life-cycle state machine (all operation sequences up to length 7) and generates random behaviours of length 10; each is replayed into the real program "
+                           "(plain / metadata / token-extension / bundled positions, ranges incl. bounds derived from the price and the full-range-only pool) and at every state every life-cycle operation "
+                           "and a set of invalid opens are also probed on copies; TLC judges each recorded instruction on the REAL logged state: open (one token, no mint authority, valid / derived range), "
+                           "close / reset only when empty, checkpoints reset, lock only with liquidity, locked positions untouchable, transfer keeps the lock, bundle bitmap = existing bundled positions"}
+
+
 def C16(tier, seed):
     drivers = hist_jobs("hist_t22fee_", seed, 5 if tier == "quick" else 16, 4 if tier == "quick" else 40, 200 if tier == "quick" else 300, "t22fee")
     drivers += fn_jobs("tfee", tier, seed, 400, 8000, shards_q=2, shards_t=8)
@@ -258,4 +277,4 @@ def C08(tier, seed):
     return p
 
 
-PLANS = {"C01": C01, "C02": C02, "C03": C03, "C04": C04, "C10": C10, "C14": C14, "C15": C15, "C16": C16, "C17": C17, "C05": C05, "C06": C06, "C07": C07, "C11": C11, "C12": C12, "C13": C13, "C08": C08, "C09": C09}
+PLANS = {"C01": C01, "C02": C02, "C03": C03, "C04": C04, "C10": C10, "C14": C14, "C15": C15, "C16": C16, "C17": C17, "C18": C18, "C05": C05, "C06": C06, "C07": C07, "C11": C11, "C12": C12, "C13": C13, "C08": C08, "C09": C09}
